@@ -315,6 +315,12 @@ class Next(_Q):
     def on_return(self, it, ret):
         st = it.st
         g = st.ghost
+        cancelled = any(l.endswith(("task-cancelled-while-pending", "task-cancelled-after-result",
+                                    "task-cancelled-after-exception")) for l in st.labels)
+        # a cancellation delivered to the receiving task at its suspension point is never swallowed - also when an element had
+        # already been handed over (the element goes back to the front of the buffer): a consumer that returned normally here
+        # would go on as if nobody had asked it to stop (a scope waiting for it would wait for ever)
+        st.check("P2:a-cancelled-receive-never-returns-normally(the-cancellation-is-not-swallowed)", z3.BoolVal(not cancelled))
         st.check("P1:returns-the-next-undelivered-element", ret == z3.Select(g["enq_arr"], g["del_n"]))
         st.check("P1:something-was-enqueued", g["del_n"] < g["enq_n"])
         g["del_n"] = st.simp(g["del_n"] + 1)
